@@ -241,11 +241,9 @@ def gen_case(rng, max_steps=12):
                            "vals": [c for r in st["rows"] for c in r[1]], "ok": True,
                            "strkeys": bool(st.get("strkeys"))})
         elif kind == "cons":
-            # an object built from a dictionary with numeric-string keys keeps the caller's rows in
-            # _meta and a copy of IT is built from those (recorded observation, outside C19 and
-            # outside the model): such objects are not used as sources
-            oksrc = [k for k in live if not (shadow[k]["kind"] == "wl" and shadow[k].get("strkeys"))]
-            src = rng.choice(oksrc[-3:]) if rng.random() < 0.8 else rng.choice(oksrc)
+            # (an object built from a dictionary with numeric-string keys keeps the caller's rows in
+            # _meta and a copy of IT is built from those: the model's eff_rows covers that)
+            src = rng.choice(live[-3:]) if rng.random() < 0.8 else rng.choice(live)
             so = shadow[src]
             cls = rng.choices(["QLCParser", "Wordlist", "LexStat", "Alignments"], weights=[15, 45, 25, 15])[0]
             if so["cls"] == "LexStat" and cls == "Alignments" or rng.random() < 0.02:
@@ -450,9 +448,17 @@ def observe(objs, intern):
     snap = []
     for o, (r, rows) in zip(objs, per):
         hdr, cols = _hdr_names(o)
+        if isinstance(o, dict):
+            strkeys, stale = any(isinstance(k, str) and _is_rowkey(k) for k in o), []
+        else:
+            # _meta entries under numeric string keys: which row list (of which object) they are
+            strkeys = False
+            stale = [[int(k), first.get(id(v), 4999)] for k, v in o._meta.items()
+                     if isinstance(k, str) and k.isnumeric()]
         snap.append({"dict": isinstance(o, dict), "hloc": first[r],
                      "hdr": [intern.code(n) for n in hdr], "cols": [intern.code(n) for n in cols],
-                     "rows": [[int(k), first[id(v)], [intern.code(c) for c in v]] for k, v in rows]})
+                     "rows": [[int(k), first[id(v)], [intern.code(c) for c in v]] for k, v in rows],
+                     "strkeys": strkeys, "stale": stale})
     return snap
 
 
@@ -491,9 +497,17 @@ def _view(snap_obj):
     return snap_obj["hdr"], [(r[0], r[2]) for r in snap_obj["rows"]]
 
 
-def _cons_ok(snap_obj, req_codes):
-    hdr = snap_obj["hdr"]
-    return (len(set(hdr)) == len(hdr) and all(len(r[2]) == len(hdr) for r in snap_obj["rows"])
+def _eff_view(snap, k):
+    """What a construction from object k reads (the model's eff_view_obj): rows whose id has a
+    _meta reference under the numeric-string key are read through that reference."""
+    by_loc = {r[1]: r[2] for o in snap for r in o["rows"]}
+    stale = dict((i, l) for i, l in snap[k]["stale"])
+    return snap[k]["hdr"], [(r[0], by_loc.get(stale[r[0]], []) if r[0] in stale else r[2]) for r in snap[k]["rows"]]
+
+
+def _cons_ok(snap, k, req_codes):
+    hdr, rows = _eff_view(snap, k)
+    return (len(set(hdr)) == len(hdr) and all(len(c) == len(hdr) for _, c in rows)
             and all(c in hdr for c in req_codes))
 
 
@@ -595,9 +609,10 @@ def run_hist(case):
                     objs.append(d)
                     owned[len(objs) - 1] = (list(d.keys()), {k: v for k, v in d.items() if _is_rowkey(k)},
                                             {k: Intern.canon(v) for k, v in d.items() if not _is_rowkey(k)})
-                    mops = ["(ONewDict %s %s)" % (
+                    mops = ["(ONewDict %s %s %s)" % (
                         L.zlist([intern.code(n) for n in st["hdr"]]),
-                        L.lst([L.pair(L.z(i), L.zlist([intern.code(c) for c in cells])) for i, cells in st["rows"]]))]
+                        L.lst([L.pair(L.z(i), L.zlist([intern.code(c) for c in cells])) for i, cells in st["rows"]]),
+                        L.b(bool(st.get("strkeys"))))]
                     tgt = None
                 elif op == "cons":
                     src, cls = st["src"], st["cls"]
@@ -625,13 +640,13 @@ def run_hist(case):
                         snap = observe(objs, intern)
                         d = []
                         if cls in ("LexStat", "Alignments"):     # what the analysis did to its own object
-                            d = _diff_ops(len(objs) - 1, _view(prev[src]), _view(snap[-1]))
+                            d = _diff_ops(len(objs) - 1, _eff_view(prev, src), _view(snap[-1]))
                             if d is None:
                                 info["unexplained"] += 1
                                 d = []
                         mops = [base] + d
                     else:
-                        ok = src < len(prev) and _cons_ok(prev[src], req)
+                        ok = src < len(prev) and _cons_ok(prev, src, req)
                         if ok and cls in ("LexStat", "Alignments"):
                             mops = [SENTINEL]              # the analysis itself failed; taken as given
                             info["analysis_raised"] += 1
@@ -740,9 +755,10 @@ def run_hist(case):
 
 
 def _render_snap(snap):
-    return L.lst(["(mkSobj %s %s %s %s %s)" % (
+    return L.lst(["(mkSobj %s %s %s %s %s %s %s)" % (
         L.b(o["dict"]), L.nat(o["hloc"]), L.zlist(o["hdr"]), L.zlist(o["cols"]),
-        L.lst([L.pair(L.z(r[0]), L.nat(r[1]), L.zlist(r[2])) for r in o["rows"]])) for o in snap])
+        L.lst([L.pair(L.z(r[0]), L.nat(r[1]), L.zlist(r[2])) for r in o["rows"]]),
+        L.b(o["strkeys"]), L.lst([L.pair(L.z(i), L.nat(l)) for i, l in o["stale"]])) for o in snap])
 
 
 def render_hist(case, res):
@@ -777,6 +793,8 @@ def hist_classify(case, res):
         out.append("op=" + st["op"] + ("/raised" if o["raised"] else ""))
         if st["op"] == "cons":
             out.append("cons=" + st["cls"] + ("/raised" if o["raised"] else ""))
+            if st["src"] < len(o["snap"]) and o["snap"][st["src"]]["stale"]:
+                out.append("cons_from_object_with_meta_row_references" + ("/raised" if o["raised"] else ""))
         if st["op"] == "newdict" and st.get("strkeys"):
             out.append("dict_with_numeric_string_row_keys")
         if st["op"] == "newdict" and any(n in ODD_NAMES for n in st["hdr"]):
@@ -1061,7 +1079,7 @@ def run_pure(case):
             outs.append(json.dumps(_canon_result(r), sort_keys=True))
             afters.append(snapshot(m))
     res = {"res": outs, "after": afters, "taxa0": taxa0, "taxa2": list(taxa)}
-    if fun in ("flat", "flat_upgma") and all(isinstance(r, dict) for r in raw):
+    if fun in ("flat", "flat_upgma", "low_flat", "low_flat_upgma") and all(isinstance(r, dict) for r in raw):
         res["flat"] = [[(int(k), [int(i) for i in v]) for k, v in r.items()] for r in raw]
     return res
 
@@ -1071,16 +1089,18 @@ def _clusters_lit(cl):
 
 
 def render_pure(case, res):
-    isflat = "flat" in res
-    meth = case.get("method", "upgma") if case["fun"] == "flat" else "upgma"
+    islow = "flat" in res and case["fun"] in ("low_flat", "low_flat_upgma")
+    isflat = "flat" in res and not islow
+    meth = case.get("method", "upgma") if case["fun"] in ("flat", "low_flat") else "upgma"
+    low = 0 if not islow else (2 if meth == "ward" else 1)     # cython/_cluster.flat_cluster knows no 'ward'
     tcode = lambda names: L.zlist([int(t[1:]) if t[:1] == "t" and t[1:].isdigit() else -1 for t in names])
     return L.record("pure_case", [
-        L.b(isflat), L.b(isflat and meth == "ward"), COQ_METH[meth], L.q(case["thr"]),
+        L.b(isflat), L.nat(low), L.b(isflat and meth == "ward"), COQ_METH[meth], L.q(case["thr"]),
         L.qmat(case["matrix"]), L.qmat(res["after"][0]), L.qmat(res["after"][1]),
         tcode(res["taxa0"]), tcode(res["taxa2"]),
         L.zlist([ord(c) for c in res["res"][0]]), L.zlist([ord(c) for c in res["res"][1]]),
-        _clusters_lit(res["flat"][0]) if isflat else "[]",
-        _clusters_lit(res["flat"][1]) if isflat else "[]"])
+        _clusters_lit(res["flat"][0]) if isflat or islow else "[]",
+        _clusters_lit(res["flat"][1]) if isflat or islow else "[]"])
 
 
 def pure_nontrivial(case, res):
